@@ -319,6 +319,7 @@ class World:
         self.meta = self.root / f"{self.stem}.ap{self.U}.meta"
         self.decoys = {p: sha1_file(p) for p in (self.root / f"{self.stem}.ap.{e}" for e in ("bin", "meta", "cbin", "ch"))} if self.U else {}
         self.meta_sha = sha1_file(self.meta)
+        self.default_mode = self.meta.stat().st_mode & 0o777        # what a file created the ordinary way gets here
         self.knobs = dict(knobs)
 
     def replace_content(self, data_seed, new_ns=None):
@@ -573,6 +574,9 @@ def _exec_step(W, st, model, log, stats, bump, seed, progress=False):
             exp = ("absent", "complete")
         if exp and (after["bin"], after["cbin"]) != exp:
             raise Violation("C02.L", f"{sig0}:post-state", f"expected (bin,cbin)={exp} | " + ctx)
+        if op == "compress" and W.cbin.exists() and (W.default_mode & 0o444) & ~(W.cbin.stat().st_mode & 0o777):
+            raise Violation("C02.R", f"{sig0}:published-unreadable", f"the published .cbin has mode {oct(W.cbin.stat().st_mode & 0o777)}, files created the ordinary way here have {oct(W.default_mode)}: "
+                            f"users who can read the recording's other files cannot open the compressed one | " + ctx)
         if op == "decompress" and not keep and W.ch.exists():
             raise Violation("C02.L", f"{sig0}:ch-left", ".ch left after in-place decompression | " + ctx)
         if op == "to_scratch":
